@@ -231,6 +231,28 @@ def _monitored_run(src, inputs, o):
     return problems
 
 
+def border_programs():
+    out = []
+    head = 'DIM big(9) AS LONG\nt$ = "s": n% = 1: big(1) = 5\n'
+    for jump in ('GOTO {l}', 'GOSUB {l}', 'RETURN {l}', 'RESTORE {l}', 'ON ERROR GOTO {l}', 'RESUME {l}', 'IF n% THEN {l}', 'IF n% THEN GOTO {l}'):
+        # from inside a SUB / FUNCTION to a module-level label
+        out.append(head + 'CALL p(2)\nPRINT "back"; t$; big(1)\nfinish:\nPRINT "fin"; t$\nEND\nDATA 1, 2\nSUB p (a%)\n  DIM loc$(2)\n  loc$(1) = "x"\n  '
+                   + jump.format(l='finish') + '\n  PRINT "in p"\nEND SUB\n')
+        out.append(head + 'PRINT f%(2)\nfinish:\nPRINT "fin"; t$\nEND\nFUNCTION f% (a%)\n  ' + jump.format(l='finish') + '\n  f% = a%\nEND FUNCTION\n')
+        # from module level into a routine
+        out.append(head + jump.format(l='inside') + '\nPRINT "main"\nEND\nSUB p (a%)\n  inside:\n  PRINT a%\nEND SUB\n')
+        # between two routines
+        out.append(head + 'CALL q\nEND\nSUB p (a%)\n  there:\n  PRINT a%\nEND SUB\nSUB q\n  ' + jump.format(l='there') + '\nEND SUB\n')
+    for bad in ('EXIT SUB', 'EXIT FUNCTION', 'EXIT DO', 'EXIT FOR', 'RETURN', 'END SUB', 'END FUNCTION'):
+        out.append(head + bad + '\nPRINT "x"\n')
+        out.append(head + 'CALL p(1)\nEND\nSUB p (a%)\n  ' + bad + '\n  PRINT a%\nEND SUB\n')
+        out.append(head + 'PRINT f%(1)\nEND\nFUNCTION f% (a%)\n  ' + bad + '\n  f% = 1\nEND FUNCTION\n')
+    for arg in ('big()', 'big', 'big(1)', 't$', '(n%)', 'n% + 0', '1.5', '"s"', 'n%, n%', ''):
+        out.append(head + f'CALL p({arg})\nPRINT n%; big(1)\nEND\nSUB p (a%)\n  a% = a% + 1\n  PRINT a%\nEND SUB\n')
+        out.append(head + f'CALL pa({arg})\nPRINT n%; big(1)\nEND\nSUB pa (a() AS LONG)\n  a(2) = 7\n  PRINT a(1)\nEND SUB\n')
+    return out
+
+
 def run(chk):
     rng = chk.rng
     chk.regen_and_build(LEAN_MODULE)
@@ -289,6 +311,12 @@ def run(chk):
             lines.append(f'{tgt} = {text}')
             lines.append(f'PRINT {text}')
         tasks.append(('\n'.join(lines) + '\n', [], i % 3))
+    # programs on the border of what is accepted: jumps and label references across routine boundaries, EXIT / RETURN in the
+    # wrong routine, arguments of the wrong shape.  The unchanged compiler rejects most of them (nothing to monitor); whatever
+    # a compiler accepts must still be safe on the machine
+    for b in border_programs():
+        for o in (0, 2):
+            tasks.append((b, [], o))
     res = real.pmap(monitored_run, tasks)
     hits = {}
     nacc = 0
